@@ -199,15 +199,16 @@ def _takes_sep(cls) -> bool:
     from bigtree import BinaryNode
     return not issubclass(cls, BinaryNode)
 
-def build_binary_tree(t):
+def build_binary_tree(t, cls=None):
     """binary spec: None | (name, attrs, left, right) -> (root, nodes preorder)"""
     from bigtree import BinaryNode
+    cls = cls or BinaryNode
     nodes = []
     def go(s):
         if s is None:
             return None
         name, attrs, l, r = s
-        n = BinaryNode(name, **attrs)
+        n = cls(name, **attrs)
         nodes.append(n)
         ln = go(l)
         rn = go(r)
